@@ -1,19 +1,5 @@
-mod choices;
-mod core;
-mod gen_clvm;
-mod gen_lisp;
-mod gen_text;
-mod gen_value;
-mod known;
-mod orch;
-mod reduce;
-mod refint;
-mod props;
-mod replay;
-mod sut;
-mod worker;
-
-use crate::core::*;
+use vcheck::core::*;
+use vcheck::{gen_lisp, gen_value, known, orch, props, reduce, replay, sut, worker};
 use serde_json::json;
 use std::path::PathBuf;
 
@@ -43,7 +29,7 @@ fn main() {
             .or_else(|| std::env::var("VERIF_TIER").ok())
             .unwrap_or_else(|| "quick".to_string()),
     );
-    crate::core::SEED.store(seed, std::sync::atomic::Ordering::Relaxed);
+    vcheck::core::SEED.store(seed, std::sync::atomic::Ordering::Relaxed);
     match args[1].as_str() {
         "try" => {
             // vcheck try "<source>" "<args in classic syntax>" [--opt]
